@@ -654,6 +654,20 @@ struct Rules<'a> {
     arm_body_macro: bool,
 }
 
+/// R7 receivers: a map reached through a field of `self` is (in this crate) held by `&mut` reference, so the wrapper
+/// gets a reborrow `&mut *self.f`; a local map is borrowed directly. A wrong guess is a type error (undecided), never a
+/// changed meaning.
+fn map_borrow_prefix(recv: &syn::Expr) -> &'static str {
+    if let syn::Expr::Field(f) = recv {
+        if let syn::Expr::Path(p) = &*f.base {
+            if p.path.is_ident("self") || p.path.is_ident("self_") {
+                return "&mut *";
+            }
+        }
+    }
+    "&mut "
+}
+
 fn path_str(p: &syn::Path) -> String {
     let mut s = String::new();
     if p.leading_colon.is_some() {
@@ -958,7 +972,7 @@ impl<'a, 'ast> Visit<'ast> for Rules<'a> {
                             let x = self.src_part(m3.receiver.span());
                             let pk = self.src_part(m3.args[0].span());
                             let d = self.src_part(mc.args[0].span());
-                            self.push("R7", whole, vec![lit("hm_append(&mut "), x, lit(", "), pk, lit(", "), d, lit(")")]);
+                            self.push("R7", whole, vec![lit("hm_append("), lit(map_borrow_prefix(&m3.receiver)), x, lit(", "), pk, lit(", "), d, lit(")")]);
                             self.visit_expr(&m3.receiver);
                             return;
                         }
@@ -973,7 +987,7 @@ impl<'a, 'ast> Visit<'ast> for Rules<'a> {
                     let whole = self.r(mc.span());
                     let x = self.src_part(m3.receiver.span());
                     let pk = self.src_part(m3.args[0].span());
-                    self.push("R7", whole, vec![lit("hm_entry_or_default(&mut "), x, lit(", "), pk, lit(")")]);
+                    self.push("R7", whole, vec![lit("hm_entry_or_default("), lit(map_borrow_prefix(&m3.receiver)), x, lit(", "), pk, lit(")")]);
                     self.visit_expr(&m3.receiver);
                     return;
                 }
